@@ -67,6 +67,7 @@ class GhostFile:
         self.name, self.length, self.rows, self.fids, self.has_index = name, length, rows, fids, has_index
         self.index_ids = None     # sorted (flight_id, row) table stored in the _index group
         self.index_rows = None
+        self.species = None       # names in the file's species dimension (None: the file has no species dimension)
 
     def write_row(self, k, tid, fid=None):
         old, oldf = self.rows, self.fids
@@ -144,6 +145,9 @@ class DatasetStub(Model):
         self.groups = {n: Group(f, fields) for n in fs_names}
         if index_group:
             self.groups['_index'] = IndexGroup(f)
+        if getattr(f, 'species', None) is not None:
+            self.dims['species'] = FixedDim(len(f.species))
+            self.vars['species'] = SpeciesVar(f.species)
         self.closed = False
 
     def py_getattr(self, I, name):
@@ -182,6 +186,24 @@ class DatasetStub(Model):
 
     def py_setattr(self, I, name, val):
         self.attrs[name] = val
+
+
+class SpeciesVar(Model):
+    """The coordinate variable of a file's species dimension: the species names in slot order."""
+
+    def __init__(self, names):
+        self.names = list(names)
+
+    def py_len(self, I):
+        return len(self.names)
+
+    def py_getitem(self, I, i):
+        from pyvc.values import to_z3 as _tz
+        iz = z3.simplify(_tz(i)) if not isinstance(i, int) else i
+        k = iz if isinstance(iz, int) else iz.as_long()
+        if not (-len(self.names) <= k < len(self.names)):
+            I.raise_('IndexError', 'index exceeds dimension bounds')
+        return self.names[k]
 
 
 class FixedDim(Model):
@@ -311,6 +333,8 @@ def install_store_models(h, I):
     def read_var(I_, fi, a, k):
         _self, var, index, name, field, species = a[:6]
         row = var.f.effective_row(I_, index)
+        # ghost: which species list the value layer was told to label this file's slots with
+        I_.hooks.setdefault('species_reads', []).append((var.f, species))
         return Cell(var.f, row, name, field.point)
     h.summary(TS + '._read_from_nc_var', read_var)
     I.models['classattr-hook'] = None
